@@ -12,7 +12,7 @@
    executor walking the schema objects are exercised by the correspondence check only (model ->
    SDL text supplied four ways -> real engine -> introspection -> compared inside Coq). *)
 From Coq Require Import ZArith List String Bool.
-From TV Require Import Py.Prelude Model.Schema Model.ImplValidate Model.SchemaBuild Model.Introspect Proofs.IntrospectProofs.
+From TV Require Import Py.Prelude Model.Schema Model.ImplValidate Model.SchemaBuild Model.Introspect Proofs.IntrospectProofs Proofs.IntrospectExt.
 Import ListNotations.
 Open Scope string_scope.
 Open Scope list_scope.
@@ -44,6 +44,29 @@ Theorem C11_reported_fields_exact g tn fs name :
   exists f, In f fs /\ fd_name f = name /\ prefix "__" name = false /\ hidden g tn name = false.
 Proof. exact (reported_fields_exact g tn fs name). Qed.
 
+(* `extend` definitions: after a type extension is merged, __type(name:) describes the definition with the extension's
+   members (and directives) added -- enum values, union members and implemented interfaces appended in order *)
+Theorem C11_extension_is_reported g n t d dirs :
+  find_tdecl (g_types g) n = Some t ->
+  introspect_type (apply_ext g (XType n d dirs)) n = Some (type_info (apply_ext g (XType n d dirs)) (extended t d dirs)).
+Proof. exact (extension_is_reported g n t d dirs). Qed.
+
+Theorem C11_extended_enum_values_reported g n t vs xs dirs :
+  find_tdecl (g_types g) n = Some t -> td_def t = DEnum vs ->
+  exists ti, introspect_type (apply_ext g (XType n (DEnum xs) dirs)) n = Some ti /\
+             option_map (map fst) (it_enum ti) = Some (vs ++ xs).
+Proof. exact (extended_enum_values_reported g n t vs xs dirs). Qed.
+
+Theorem C11_extended_union_members_reported g n t ms xs dirs :
+  find_tdecl (g_types g) n = Some t -> td_def t = DUnion ms ->
+  exists ti, introspect_type (apply_ext g (XType n (DUnion xs) dirs)) n = Some ti /\ it_possible ti = Some (ms ++ xs).
+Proof. exact (extended_union_members_reported g n t ms xs dirs). Qed.
+
+Theorem C11_extended_object_interfaces_reported g n t ifs fs xifs xfs dirs :
+  find_tdecl (g_types g) n = Some t -> td_def t = DObject ifs fs ->
+  exists ti, introspect_type (apply_ext g (XType n (DObject xifs xfs) dirs)) n = Some ti /\ it_interfaces ti = Some (ifs ++ xifs).
+Proof. exact (extended_object_interfaces_reported g n t ifs fs xifs xfs dirs). Qed.
+
 (* non-vacuity: an interface whose implementer is declared BEFORE it and extended afterwards *)
 Definition T (n : string) (d : typedef) : tdecl := {| td_name := n; td_def := d; td_dirs := [] |}.
 Definition F (n : string) (t : ty) : field_def := {| fd_name := n; fd_type := t; fd_args := [] |}.
@@ -71,3 +94,7 @@ Print Assumptions C11_type_by_name_unknown.
 Print Assumptions C11_include_deprecated_filters.
 Print Assumptions C11_possible_types_exact.
 Print Assumptions C11_reported_fields_exact.
+Print Assumptions C11_extension_is_reported.
+Print Assumptions C11_extended_enum_values_reported.
+Print Assumptions C11_extended_union_members_reported.
+Print Assumptions C11_extended_object_interfaces_reported.
